@@ -35,7 +35,7 @@ def scratch():
 MIN_SCHEMAS = "[all]\npattern = .*\nretentions = 60:1440\n"
 
 
-def boot(conf_files=None):
+def boot(conf_files=None, standins=False):
   """Make carbon importable from the working tree and give it a sane configuration root.
 
   Must be called before the first ``import carbon.<anything that reads settings at import>``.
@@ -47,6 +47,12 @@ def boot(conf_files=None):
   if lib not in sys.path:
     sys.path.insert(0, lib)
   sys.dont_write_bytecode = True
+  if standins:
+    if 'carbon.database' in sys.modules and not _booted:
+      raise RuntimeError('stand-in libraries requested after carbon.database was imported')
+    sd = os.path.join(VERIF, 'mc', 'doubles', 'standins')
+    if sd not in sys.path:
+      sys.path.append(sd)       # appended: a real whisper/ceres, if ever installed, wins
   # carbon.service tolerates ImportError for this optional listener; the py2-only txamqp in this
   # image raises SyntaxError instead.  AMQP is anchored by no property.
   sys.modules.setdefault('carbon.amqp_listener', None)
